@@ -74,6 +74,7 @@ def signature(verdict):
         sig["pointRing"] = d.get("ptring") == "1"
     if sig["clause"] == "idempotent":
         sig["emptyOutput"] = d.get("emptyout") == "1"
+        sig["onlyMultiWrapping"] = d.get("idem") == "W"
     if sig["clause"] == "area":
         sig["ringRetracesEdge"] = d.get("retrace") == "1"
     if sig["clause"] == "dispatch":
